@@ -13,7 +13,8 @@ RULE = ('Engine A: FULL(2), FULL(3) x subsets of the four size/ratio/volume cons
         'DEV(5,2) without budget and share dimensions; per configuration BOTH searches run on identical inputs. '
         'Oracle: every greedy design lies in the brute-force feasible set F (legal, sizes, ratios, volume); its score '
         '<= the exhaustive best and <= the brute-force best; F empty or exhaustive empty => greedy returns nothing '
-        '(ValueError counts as nothing). Non-trivial = greedy returned >= 1 design and F has >= 2 designs; distinct '
+        '(ValueError counts as nothing); reference-free differential: every greedy design is among the designs the exhaustive '
+        'search ranks on the same input with n_designs large; plus THRESH volume bounds on a share-DRIFT panel with a short window. Non-trivial = greedy returned >= 1 design and F has >= 2 designs; distinct '
         '= distinct case.')
 ASSUMPTIONS = ['values: fixed integer panels', 'feasible set drawn from the admitted geos (scope S4)']
 
@@ -28,6 +29,9 @@ def cases(tier, seed):
     if thorough:
         parts.append(spaces.full_configs({'name': 'B', 'G': 3, 'T': T}, subsets=SUBSETS, base_kw={'n_designs': 3}))
         parts.append(spaces.dev_configs({'name': 'B', 'G': 5, 'T': T}, 2, INCLUDE, base_kw={'n_designs': 3}))
+    # share-DRIFT panel, short window: volume bounds between all critical values of the all-dates and windowed readings
+    parts.append(spaces.threshold_space({'name': 'D', 'G': 4, 'T': T}, methods=('exhaustive_search',),
+                                        base_kw={'n_designs': 3, 'n_pretest_max': 6}, parts=('volume',)))
     if seed:
         parts.append(spaces.dev_configs({'name': 'C', 'G': 3, 'T': T, 'seed': seed}, 2, INCLUDE, base_kw={'n_designs': 3}))
     out = [c for part in parts for c in part if spaces.precondition_ok(c)]
@@ -45,6 +49,18 @@ def run_case(case):
     ref = sc.Ref(case)
     viol, info = sc.oracle_greedy_vs_exhaustive(case, ref, og, oe)
     ng = len(og['designs'] or ())
+    if ng and oe['exc'] is None:
+        # reference-free differential, literally the statement: the set RANKED by the exhaustive search (same input, but
+        # n_designs large enough to keep every design it evaluates and accepts) must contain every greedy design
+        oall = sc.observe(dict(ce, kw=dict(case['kw'], n_designs=100000)), want_admitted=False)
+        if oall['exc'] is None:
+            ranked = {(frozenset(d['T']), frozenset(d['C'])) for d in oall['designs']}
+            for i, d in enumerate(og['designs']):
+                g = (frozenset(d['T']), frozenset(d['C']))
+                if g not in ranked:
+                    viol.append({'key': 'C13:greedy-outside-exhaustive-ranked-set',
+                                 'msg': 'greedy design #%d %s is not among the %d designs the exhaustive search ranks on the same input' % (
+                                     i, sc._fmt(g), len(ranked))})
     ne = len(oe['designs'] or ())
     same_best = bool(ng and ne and og['designs'][0]['T'] == oe['designs'][0]['T'] and og['designs'][0]['C'] == oe['designs'][0]['C'])
     return {'viol': viol, 'nontrivial': ng >= 1 and info.get('F_any', 0) >= 2,
